@@ -56,6 +56,8 @@ m("c12-zero-not-final", "refactor", "C12", SW, "            if chunk_length == 0
 m("c12-decompress-concat", "mutant", "C12", SW, "                    if self._encoding & ENCODE_DEFLATE:\n                        chunk = decompress(chunk, wbits=-MAX_WBITS)",
   "                    if self._encoding & ENCODE_DEFLATE:\n                        chunk = decompress(chunk + b\"\", wbits=-MAX_WBITS) if len(chunk) < 200 else chunk")
 m("c12-partial-lost-crlf", "mutant", "C12", SW, "                    partial = length_bytes + chunk + crlf", "                    partial = length_bytes + chunk")
+m("c12-partial-reset-on-fail", "mutant", "C12", SW, "        except (OSError, TimeoutError):\n            return False", "        except (OSError, TimeoutError):\n            self._partial = b\"\"\n            return False")
+m("c12-reader-drops-compression", "mutant", "C12", RD, "self._stream = SocketWrapper(datastream, encoding=encoding, bufsize=bufsize)", "self._stream = SocketWrapper(datastream, encoding=encoding & 1, bufsize=bufsize)")
 m("c12-upper-only", "mutant", "C12", SW, "int(length_bytes.strip(), 16)", "int(length_bytes.strip().replace(b\"e\", b\"f\"), 16)")
 
 # ---- C01 -------------------------------------------------------------------
